@@ -149,6 +149,16 @@ func runC03(res *lib.Result, tier string, seed int64, args []string) error {
 			}
 		}
 	}
+	// fixed invalid chunks (every tier; space-separated tokens, judged by the grammar oracle like every other program):
+	// names that are no plain identifier where the grammar wants one
+	for _, line := range []string{"local function a . b ( ) end", "local function a : b ( ) end", "local function a . b . c : d ( x , ... ) return x end", "local function ( ) end",
+		"local a . b = 1", "for a . b = 1 , 2 do end", "for a . b in pairs ( t ) do end", "function f ( a . b ) end", "local function f ( a , ) end", "x = function f ( ) end",
+		"goto 1", ":: a . b ::", "return return", "function a : b . c ( ) end", "function a : b : c ( ) end", "local function f ( ... , a ) end"} {
+		toks := strings.Fields(line)
+		if err := check("fixed-invalid", toks, []byte(line), "fixed invalid chunk"); err != nil {
+			return err
+		}
+	}
 	// comment spellings that look like the start of a long bracket but are short comments (or long ones directly followed
 	// by code): all these chunks are valid
 	for k, src := range []string{"--[=] see note\nlocal a = 1\n", "--[==== section ====]\nlocal a = 1\n", "local a = 1 --[= x\nreturn a", "--[=", "--[ x ]\nreturn 1", "--]] x\nreturn 1",
